@@ -1,6 +1,7 @@
 """C14 — AeRes model images are the catalogue's Gaussians; subtraction closes the loop (AegeanTools/AeRes.py).
 
-Spec, at an arbitrary pixel (i, j) of an image of arbitrary shape, for catalogues of 1 and 2 symbolic sources:
+Spec, at an arbitrary pixel (i, j) of an image of arbitrary shape, for catalogues of any length (loop invariant + generic
+iteration of the source loop on an ARBITRARY previous image, which is additivity):
   make_model(S, shape, w)[i, j] = sum over sources s whose centre (X_s, Y_s) = sky2pix_ellipse(s) lies on the image
       (0 < X < rows, 0 < Y < cols) and whose evaluation box is finite, of
       [ (i, j) in box(s) ] * G(i, j; peak_s, X_s - 1, Y_s - 1, sx_s * FWHM2CC, sy_s * FWHM2CC, theta_s)
@@ -24,7 +25,6 @@ FFILE = "AegeanTools/fitting.py"
 ASSUMPTIONS = [
     "WCSHelper.sky2pix_ellipse(pos, a, b, pa) returns the 1-based (row, column) centre, FWHM axes in pixels and angle (C16 contract); "
     "its numerical accuracy is not part of this proof",
-    "number of sources is enumerated (1 and 2 symbolic sources); the per-source contract and additivity are what is proved",
     "the 5-sigma extent clause (model below 1e-4 of the peak outside the box) is not decided: the box half-width "
     "5*(|sx cos|+|sy sin|) with sx, sy FWHM is assumed generous enough",
     "numpy: np.mgrid / ravel / fancy indexing with the distinct cells of an mgrid box / np.where selection as in contracts/arrays.py",
@@ -50,7 +50,7 @@ def genv(ctx, calls):
             if name == 'sky2pix_ellipse':
                 def f(c2, pos, a, b, pa):
                     calls.append((pos, a, b, pa))
-                    k = z3.IntVal(len(calls) - 1)
+                    k = source_index(c2.interp.iterate(pos))
                     return (Sym(E_X(k), True), Sym(E_Y(k), True), Sym(E_SX(k), True), Sym(E_SY(k), True), Sym(E_TH(k), True))
                 return Model(f, 'sky2pix_ellipse')
             raise Undecided("wcshelper." + name)
@@ -67,10 +67,25 @@ def genv(ctx, calls):
     return g, Helper(), eg
 
 
+SRCF = {n: z3.Function('src_' + n, z3.IntSort(), R) for n in ('ra', 'dec', 'a', 'b', 'pa', 'peak', 'local_rms')}
+
+
 def mk_source(k):
-    s = lambda n: Sym(z3.Real('%s_%d' % (n, k)), True)
-    return Obj('ComponentSource', ra=s('ra'), dec=s('dec'), a=s('a'), b=s('b'), pa=s('pa'), peak_flux=s('peak'),
-               local_rms=s('local_rms'), island=k, source=0)
+    """source number k (python int or symbolic index) of the catalogue"""
+    kk = Sym.lift(k)
+    s = lambda n: Sym(SRCF[n](kk), True)
+    o = Obj('ComponentSource', ra=s('ra'), dec=s('dec'), a=s('a'), b=s('b'), pa=s('pa'), peak_flux=s('peak'),
+            local_rms=s('local_rms'), island=Sym(kk) if not isinstance(k, int) else k, source=0)
+    o.ghost_k = k
+    return o
+
+
+def source_index(pos):
+    """the catalogue index of the source a sky2pix_ellipse call is about (from its ra term)"""
+    e = Sym.lift(pos[0])
+    if z3.is_app(e) and e.decl().name() == 'src_ra':
+        return e.arg(0)
+    raise Undecided("sky2pix_ellipse called with a position that is not a catalogue position")
 
 
 def gauss(ctx, eg, i, j, amp, xo, yo, sx, sy, th):
@@ -80,8 +95,8 @@ def gauss(ctx, eg, i, j, amp, xo, yo, sx, sy, th):
 def spec_terms(ctx, eg, srcs, rows, cols, i, j):
     """per source: (included condition at (i,j), model value at (i,j))"""
     out = []
-    for k, s in enumerate(srcs):
-        kk = z3.IntVal(k)
+    for k, s in srcs:
+        kk = Sym.lift(k)
         X, Y, SX, SY, TH = [Sym(f(kk), True) for f in (E_X, E_Y, E_SX, E_SY, E_TH)]
         phi = lib.m_radians(ctx, TH)
         cph, sph = lib.m_cos(ctx, phi), lib.m_sin(ctx, phi)
@@ -106,14 +121,23 @@ def rl_(x):
 
 
 def t_make_model(ctx):
+    """generic iteration of the source loop: the image before the iteration is arbitrary (that is additivity)"""
     reset_uids()
-    nsrc = 1 + ctx.choice(2)
+    from pyvc.engine import SeqList, LoopSpec
     mode = ctx.choice(3)          # sum / mask by frac / mask by sigma
     calls = []
     g, helper, eg = genv(ctx, calls)
     rows, cols = Sym(z3.Int('rows')), Sym(z3.Int('cols'))
-    ctx.assume(And(rows >= 1, cols >= 1))
-    srcs = [mk_source(k) for k in range(nsrc)]
+    n = Sym(z3.Int('n_sources'))
+    ctx.assume(And(rows >= 1, cols >= 1, n >= 0))
+    cache = {}
+
+    def item(k):
+        key = str(Sym.lift(k))
+        if key not in cache:
+            cache[key] = mk_source(k)
+        return cache[key]
+    sources = SeqList(ctx, n, item)
     kw = {}
     frac = Sym(z3.Real('frac'), True)
     sigma = Sym(z3.Real('nsigma'), True)
@@ -121,50 +145,73 @@ def t_make_model(ctx):
         kw = {'mask': True, 'frac': frac}
     elif mode == 2:
         kw = {'mask': True, 'sigma': sigma}
-    out = run_function(ctx, FILE, 'make_model', [list(srcs), (rows, cols), helper], kw, globals_=g)
-    lab = "make_model.%s.%dsrc" % (("sum", "mask_frac", "mask_sigma")[mode], nsrc)
+    lab = "make_model.%s" % (("sum", "mask_frac", "mask_sigma")[mode])
+    i, j = Sym(z3.Int('pi_')), Sym(z3.Int('pj_'))
+    ctx.assume(And(i >= 0, i < rows, j >= 0, j < cols))
+    st = {}
+
+    def havoc(c, env):
+        M = SArr.fresh(uid("model_before"), (rows, cols), with_nan=True)
+        env.vars['m'] = M
+        st['m'] = M
+
+    def inv(c, env, k):
+        m = env.lookup('m')
+        if not isinstance(m, SArr) or len(m.shape_) != 2:
+            return [("model_is_an_image_of_the_requested_shape", False)]
+        out = [("model_is_an_image_of_the_requested_shape", And(m.shape_[0] == rows, m.shape_[1] == cols))]
+        if mode == 0:
+            out.append(("no_nan_in_model", Not(m.isnan((i, j)))))
+        return out
+
+    def before(c, env, k):
+        del calls[:]
+        m = st['m']
+        st['before'] = SArr("before", m.shape_, m.elem, m.blank0)
+        st['before'].writes = list(m.writes)
+        st['w0'] = len(m.writes)
+
+    def after(c, env, k):
+        m = st['m']
+        if env.lookup('m') is not m:
+            c.oblige("post", lab + ".model_is_updated_in_place", False)
+            return
+        okc = len(calls) == 1
+        c.oblige("post", lab + ".one_ellipse_conversion_per_source", okc)
+        s_ = item(k).fields
+        if okc:
+            pos, a, b, pa = calls[0]
+            p = c.interp.iterate(pos)
+            c.oblige("post", lab + ".ellipse_arguments_arcsec_to_degrees",
+                     And(p[0] == s_['ra'], p[1] == s_['dec'], a == s_['a'] / 3600, b == s_['b'] / 3600, pa == s_['pa']))
+        kk = Sym.lift(k)
+        X, Y = Sym(E_X(kk), True), Sym(E_Y(kk), True)
+        on_image = c.truth(And(X > 0, X < rows, Y > 0, Y < cols))
+        new = m.writes[st['w0']:]
+        c.oblige("post", lab + ".one_write_per_source_centred_on_the_image_offimage_sources_skipped", len(new) == (1 if on_image else 0))
+        if len(new) != 1 or not on_image:
+            return
+        cond, val, nanf = new[0]
+        inc, G = spec_terms(c, eg, [(k, item(k))], rows, cols, i, j)[0]
+        prev = st['before']
+        if mode == 0:
+            c.oblige("post", lab + ".write_region_is_the_source_box_clipped_to_the_image", cond((i, j)) == inc, timeout_ms=60000)
+            c.oblige("post", lab + ".written_value_is_previous_plus_source_gaussian",
+                     Implies(inc, And(val((i, j)) == prev.at((i, j)) + G, Sym(Sym.lift(nanf((i, j))) == Sym.lift(prev.isnan((i, j)))))),
+                     timeout_ms=60000)
+        else:
+            thr = frac * s_['peak_flux'] if mode == 1 else sigma * s_['local_rms']
+            c.oblige("post", lab + ".mask_rule", cond((i, j)) == And(inc, G >= thr), timeout_ms=60000)
+            c.oblige("post", lab + ".masked_pixels_become_nan_others_untouched", nanf((i, j)) is True or nanf((i, j)) == True)  # noqa: E712
+    spec = LoopSpec(inv, havoc=havoc, label="sources", modifies=lambda c, env: [st['m']], types={'i_count': 'int'})
+    spec.before_body, spec.after_body = before, after
+    ctx.interp.loops["for src in sources"] = spec
+    out = run_function(ctx, FILE, 'make_model', [sources, (rows, cols), helper], kw, globals_=g)
     if out.kind != 'return' or not isinstance(out.value, SArr):
         ctx.oblige("safe", lab + ".no_exception_and_returns_image", False)
         return
     m = out.value
     ctx.oblige("post", lab + ".shape", And(m.shape_[0] == rows, m.shape_[1] == cols))
-    # sky2pix_ellipse called once per source with (ra,dec), a/3600, b/3600, pa
-    okc = len(calls) == nsrc
-    ctx.oblige("post", lab + ".one_ellipse_conversion_per_source", okc)
-    if okc:
-        for k, (pos, a, b, pa) in enumerate(calls):
-            s = srcs[k].fields
-            p = ctx.interp.iterate(pos)
-            ctx.oblige("post", lab + ".ellipse_arguments_arcsec_to_degrees",
-                       And(p[0] == s['ra'], p[1] == s['dec'], a == s['a'] / 3600, b == s['b'] / 3600, pa == s['pa']))
-    i, j = ctx.fresh_int("pi_"), ctx.fresh_int("pj_")
-    ctx.assume(And(i >= 0, i < rows, j >= 0, j < cols))
-    terms = spec_terms(ctx, eg, srcs, rows, cols, i, j)
-    # which sources are on the image is decided on this path (the code branched on it): one write per such source, in order
-    included = []
-    for k in range(nsrc):
-        kk = z3.IntVal(k)
-        X, Y = Sym(E_X(kk), True), Sym(E_Y(kk), True)
-        if ctx.truth(And(X > 0, X < rows, Y > 0, Y < cols)):
-            included.append(k)
-    ctx.oblige("post", lab + ".one_write_per_source_centred_on_the_image_offimage_sources_skipped",
-               len(m.writes) == len(included))
-    if len(m.writes) != len(included):
-        return
-    for w, k in enumerate(included):
-        cond, val, nanf = m.writes[w]
-        inc, G = terms[k]
-        before = SArr("before", m.shape_, m.elem, m.blank0)
-        before.writes = list(m.writes[:w])
-        if mode == 0:
-            ctx.oblige("post", lab + ".write_region_is_the_source_box_clipped_to_the_image", cond((i, j)) == inc, timeout_ms=60000)
-            ctx.oblige("post", lab + ".written_value_is_previous_plus_source_gaussian",
-                       Implies(inc, And(val((i, j)) == before.at((i, j)) + G, Not(nanf((i, j))))), timeout_ms=60000)
-        else:
-            s_ = srcs[k]
-            thr = frac * s_.fields['peak_flux'] if mode == 1 else sigma * s_.fields['local_rms']
-            ctx.oblige("post", lab + ".mask_rule", cond((i, j)) == And(inc, G >= thr), timeout_ms=60000)
-            ctx.oblige("post", lab + ".masked_pixels_become_nan_others_untouched", nanf((i, j)) is True or nanf((i, j)) == True)  # noqa: E712
     if mode == 0:
         ctx.oblige("post", lab + ".no_nan_in_model", Not(m.isnan((i, j))), timeout_ms=60000)
     ctx.cover(lab + ".reachable")
